@@ -56,6 +56,13 @@ def mutates_outer_state(fd) -> bool:
     return False
 
 
+class BuiltinRef:
+    """A builtin handed around as a value (`label_of = int`)."""
+
+    def __init__(self, name: str):
+        self.name = name
+
+
 class BoolList(list):
     """A boolean tensor (result of a comparison / all / any / ~): used as an index it is a mask, not a list of positions."""
 
@@ -314,6 +321,10 @@ class Folder:
                 if isinstance(v, (ast.FunctionDef, ast.Lambda)):
                     return v  # a local function handed around as a value
                 return self.fold(v) if isinstance(v, ast.AST) else v
+            if node.id in self.funcs:
+                return self.funcs[node.id]  # a module-level function used as a value
+            if node.id in ("int", "float", "abs", "len", "bool", "str"):
+                return BuiltinRef(node.id)
             raise Unfoldable(f"name {node.id}")
         if isinstance(node, ast.Attribute):
             ch = attr_chain(node)
@@ -515,6 +526,21 @@ class Folder:
                     return target(*[self.fold(a) for a in node.args])
                 except (TypeError, ValueError, IndexError) as exc:
                     raise Unfoldable(str(exc))
+        if isinstance(node, ast.Call) and isinstance(node.func, ast.Name) and isinstance(self.names.get(node.func.id), BuiltinRef):
+            return self.fold(ast.Call(func=ast.Name(id=self.names[node.func.id].name, ctx=ast.Load()), args=node.args, keywords=node.keywords))
+        if isinstance(node, ast.Call) and isinstance(node.func, ast.Name) and node.func.id == "map" and len(node.args) == 2 and not node.keywords:
+            seq_ = self.fold(node.args[1])
+            if not isinstance(seq_, (list, str)):
+                raise Unfoldable("map over a non-sequence")
+            out_ = PySeq()
+            for it_ in seq_:
+                sub_names = dict(self.names)
+                sub_names["__map_item"] = it_
+                sub = Folder(sub_names, self.attrs)
+                sub.funcs, sub.materialise, sub.ctors = self.funcs, self.materialise, self.ctors
+                fn_ = node.args[0]
+                out_.append(sub.fold(ast.Call(func=fn_, args=[ast.Name(id="__map_item", ctx=ast.Load())], keywords=[])))
+            return out_
         if isinstance(node, ast.Call) and isinstance(node.func, ast.Name) and isinstance(self.names.get(node.func.id), (ast.FunctionDef, ast.Lambda)) and not node.keywords:
             fd_ = self.names[node.func.id]
             if mutates_outer_state(fd_):
